@@ -23,6 +23,12 @@ TEXTS = [
     "x = 1; y = (2\n+ 3); x + y",
     "rate * 2",
     "u += 1",
+    "0 ** 0",
+    "(0 - 8) ** 0.5",
+    "10 / 3",
+    "{1.0: 'a', 2.50: 'b'}",
+    "{1: 'c', 2.5: 'd'}['1']",
+    "x = {}\nx[7.0] = 1\nx[7] = 2\nkeys(x)",
 ]
 
 
@@ -39,6 +45,9 @@ def outcome(p, call, text, names=None, budget=100):
         return ('err', type(e).__name__, str(e))
 
 
+import decimal as _d0
+_c0 = _d0.getcontext()
+GLOBALS0 = (_c0.prec, _c0.rounding, _c0.Emax, _c0.Emin, _c0.capitals, _c0.clamp, tuple(sorted(str(k) for k, v in _c0.traps.items() if v)))
 EXPECTED = {}
 with hlib.native():
     for _call in ('parse', 'eval', 'list_names'):
@@ -90,28 +99,43 @@ def _first(p, kind, ti):
         pass
 
 
-SECOND_QUICK = [(0, 1), (0, 3), (1, 13), (1, 14), (1, 10), (2, 9), (1, 1), (0, 13), (1, 15), (2, 3)]
+SECOND_QUICK = [(0, 1), (0, 3), (1, 13), (1, 14), (1, 10), (2, 9), (1, 1), (0, 13), (1, 15), (2, 3), (1, 18), (1, 20), (1, 21), (1, 19)]
+
+
+def hlib_reset():
+    # every history starts from the same process state: functools caches of the package cleared, default decimal context
+    for c in hlib._find_caches():
+        c.cache_clear()
+    _d0.setcontext(_d0.Context(prec=GLOBALS0[0], rounding=GLOBALS0[1], Emax=GLOBALS0[2], Emin=GLOBALS0[3], capitals=GLOBALS0[4], clamp=GLOBALS0[5],
+                               traps=[_d0.InvalidOperation, _d0.DivisionByZero, _d0.Overflow]))
 
 
 def history_pair(kind: int, si: int) -> None:
     """
-    pre: 0 <= kind <= 4 and 0 <= si < 48
+    pre: 0 <= kind <= 4 and 0 <= si < 66
     post: True
     """
     hlib.enter(locals())
     t1 = hlib.PARAM["t1"]
     second = SECOND_QUICK if hlib.PARAM["quick"] else [(c, t) for c in range(3) for t in range(len(TEXTS))]
-    kind, si = hlib.concrete(kind, 0, 4), hlib.concrete(si, 0, 47)
+    kind, si = hlib.concrete(kind, 0, 4), hlib.concrete(si, 0, 65)
     hlib.assume(si < len(second))
     call2, t2 = second[si]
     c2 = ('parse', 'eval', 'list_names')[call2]
     with hlib.native(unwalled=True):
         p = SqParser()
     with hlib.native():
+        hlib_reset()
         _first(p, kind, t1)
         got = outcome(p, c2, TEXTS[t2])
         # post-states of real histories lie inside the havoc domain of the obligation above
         dom = p.lex.lexpos >= 0 and p.lex.lineno >= 1 and isinstance(getattr(p.lex, 'paren_count', 0), int)
+        import decimal as _d
+        c = _d.getcontext()
+        glob = (c.prec, c.rounding, c.Emax, c.Emin, c.capitals, c.clamp, tuple(sorted(str(k) for k, v in c.traps.items() if v)))
+    assert glob == GLOBALS0, "a call left process-global state changed (decimal context %r, was %r)" % (glob, GLOBALS0)
+    with hlib.native():
+        pass
     assert dom, "a real history leaves the lexer outside the havoc domain (havoc obligation would not cover it)"
     assert got == EXPECTED[(c2, t2)], "after %d/%r, %s(%r) differs from a fresh parser" % (kind, TEXTS[t1], c2, TEXTS[t2])
     hlib.done()
